@@ -261,26 +261,47 @@ C12_SOURCES = [
     ("lines", "x = 1" + "\n" * 300 + "y = 2\n"),
     ("dead", "def fn():\n    return\n    def i():\n        i()\n"),
     ("module", "import os\nprint(os.name)\n"),
+    ("except_oneliner", "def f(t):\n    try:\n        g()\n    except OSError: pass\n    while t:\n        if t: break\n"),
+    ("ellipsis", "def f(x):\n    return x[...], x[..., 1], (..., b'b')\n"),
+    ("class_twice", "class A: pass\nclass A: pass\n"),
 ]
 
 
-def _c12_one(sid, code):
+def _c12_handbuilt():
+    """documents that no compiler of this interpreter may produce: every private field set, argument-less instructions with line offsets"""
+    from code_data import AdditionalLine, Args, Constant, Function, Instruction, Jump, Name, NoArg
+    from .props4 import mk
+    body = [Instruction("POP_TOP", NoArg(), None, 3, (0, 4)), Instruction("LOAD_CONST", Constant((1, (2, ...), b"x", frozenset([3])), 1), None, 3, (1,)),
+            Instruction("JUMP_ABSOLUTE", Jump(0), 2, 4), Instruction("LOAD_NAME", Name("n", 0), None, 4), Instruction("RETURN_VALUE", NoArg(), None, 5, (2, 2))]
+    return [("handbuilt", mk([body], type=Function(Args(("p",), ("a",), "r", ("k",), "kw"), "doc", "GENERATOR"), _additional_line=AdditionalLine(9, (1, 2)),
+                             _additional_args=(Constant(None, 0), Name("m", 1)), _nested=True, future_annotations=True))]
+
+
+def _c12_one(sid, code, d1=None):
     msgs = []
-    snap = _code_snapshot(code)
-    d1 = CodeData.from_code(code)
-    d2 = CodeData.from_code(code)
-    if _code_snapshot(code) != snap:
-        msgs.append("from_code modified its argument")
-    if d1 != d2 or repr(d1) != repr(d2):
-        msgs.append("from_code is not repeatable on the same code object")
+    if d1 is None:
+        snap = _code_snapshot(code)
+        d1 = CodeData.from_code(code)
+        d2 = CodeData.from_code(code)
+        if _code_snapshot(code) != snap:
+            msgs.append("from_code modified its argument")
+        if d1 != d2 or repr(d1) != repr(d2):
+            msgs.append("from_code is not repeatable on the same code object")
+        return msgs + _c12_data(d1, can_encode=True)
+    return _c12_data(d1, can_encode=False)
+
+
+def _c12_data(d1, can_encode):
+    msgs = []
     keep = copy.deepcopy(d1)
     r1 = repr(d1)
-    c1 = d1.to_code()
-    c2 = d1.to_code()
-    if oracle.code_diff(c1, c2):
-        msgs.append("to_code is not repeatable: %s" % oracle.code_diff(c1, c2)[0])
-    if repr(d1) != r1 or d1 != keep:
-        msgs.append("to_code modified the CodeData")
+    if can_encode:
+        c1 = d1.to_code()
+        c2 = d1.to_code()
+        if oracle.code_diff(c1, c2):
+            msgs.append("to_code is not repeatable: %s" % oracle.code_diff(c1, c2)[0])
+        if repr(d1) != r1 or d1 != keep:
+            msgs.append("to_code modified the CodeData")
     n1 = d1.normalize()
     n2 = d1.normalize()
     if n1 != n2 or repr(n1) != repr(n2):
@@ -310,11 +331,16 @@ def _c12_one(sid, code):
     jn = n1.to_json_data()
     jns = _json_snapshot(jn)
     CodeData.from_json_data(jn)
-    d1.to_code()
+    if can_encode:
+        d1.to_code()
     if _json_snapshot(jn) != jns:
         msgs.append("from_json_data modified the normalized document")
     # returned values share no mutable state with the argument
+    j_other = d1.to_json_data()
+    other_snap = _json_snapshot(j_other)
     _mutate_json(j1)
+    if _json_snapshot(j_other) != other_snap:
+        msgs.append("mutating one returned JSON document changed another document returned earlier (shared mutable state)")
     j3 = d1.to_json_data()
     if _json_snapshot(j3) != js:
         msgs.append("mutating a returned JSON document affected a later to_json_data call")
@@ -342,11 +368,21 @@ def c12_purity(tier, seed):
             if msgs:
                 fails.append(fail("api_calls_pure", "%s%s" % (sid, list(path)), msgs, {"source": src, "path": list(path)}))
         samples.append(sid)
-    return result(evals, len(srcs), fails, samples, "%d sources x every nested code object x a fixed history of 14 repeated/interleaved API calls with deep snapshots" % len(srcs))
+    for sid, cd in _c12_handbuilt():
+        evals += 12
+        try:
+            msgs = _c12_one(sid, None, cd)
+        except Exception as e:
+            msgs = ["history raised %s: %s" % (type(e).__name__, e)]
+        if msgs:
+            fails.append(fail("api_calls_pure", sid, msgs, {"handbuilt": sid}))
+    return result(evals, len(srcs) + 1, fails, samples, "%d sources x every nested code object, plus one hand-built CodeData with every private field set (argument-less instructions with line offsets), x a fixed history of 14 repeated/interleaved API calls with deep snapshots" % len(srcs))
 
 
 @replayer("C12", "purity_histories")
 def c12_replay(rec):
+    if "handbuilt" in rec["recipe"]:
+        return _c12_one("replay", None, _c12_handbuilt()[0][1])
     code = compile(rec["recipe"]["source"], "<c12>", "exec", dont_inherit=True)
     for i in rec["recipe"]["path"]:
         code = code.co_consts[i]
